@@ -50,6 +50,13 @@ func (p *Pair) Close() {
 	if p.MemS != nil {
 		_ = p.MemS.Close()
 	}
+	// closing the transports first makes blocked reads on real sockets return at once too
+	if p.ST != nil {
+		_ = p.ST.Close()
+	}
+	if p.CT != nil {
+		_ = p.CT.Close()
+	}
 	if p.Client != nil {
 		_ = p.Client.Close()
 	}
@@ -231,14 +238,21 @@ func EstablishedPair(kind string, bufSize int) (*Pair, error) {
 	defer cancel()
 	errc := make(chan error, 1)
 	clientNode := lime.Node{Identity: lime.Identity{Name: "cli", Domain: "verif.test"}, Instance: "i1"}
+	encOpts := []lime.SessionEncryption{lime.SessionEncryptionNone}
+	encSel := lime.NoneEncryptionSelector
+	if kind == "memtls" || kind == "tcptls" {
+		// negotiate the in-place TLS upgrade
+		encOpts = []lime.SessionEncryption{lime.SessionEncryptionNone, lime.SessionEncryptionTLS}
+		encSel = lime.TLSEncryptionSelector
+	}
 	go func() {
 		errc <- p.Server.EstablishSession(ctx,
 			[]lime.SessionCompression{lime.SessionCompressionNone},
-			[]lime.SessionEncryption{lime.SessionEncryptionNone},
+			encOpts,
 			[]lime.AuthenticationScheme{lime.AuthenticationSchemeGuest},
 			allowAll, registerAs(clientNode))
 	}()
-	ses, err := p.Client.EstablishSession(ctx, lime.NoneCompressionSelector, lime.NoneEncryptionSelector,
+	ses, err := p.Client.EstablishSession(ctx, lime.NoneCompressionSelector, encSel,
 		clientNode.Identity, lime.GuestAuthenticator, clientNode.Instance)
 	if err != nil {
 		p.Close()
